@@ -21,7 +21,7 @@ def build_data_element(d: Dict):
             from maus.models.edifact_components import DataElementDataType
 
             extra["value_type"] = DataElementDataType[d["vt"]]
-        return DataElementFreeText(discriminator=d["d"], ahb_expression=expr_string(d["x"]), entered_input=d["input"], data_element_id="1234", **extra)
+        return DataElementFreeText(discriminator=None if d.get("nod") else d["d"], ahb_expression=expr_string(d["x"]), entered_input=d["input"], data_element_id="1234", **extra)
     return DataElementValuePool(
         discriminator=d["d"],
         data_element_id="0333",
